@@ -345,6 +345,39 @@ class Deriver:
                     yield (rule, s, l), self.embed(tr_, rule, par)
 
 
+    def sentences_in_sites(self, starts):
+        """One derivation per (use site of a rule, automaton arc of that rule): every arc of R is also taken inside
+        every rule that refers to R, not only inside R's cheapest context."""
+        par = self.parents(starts)
+        g = self.g
+        sites = {}
+        for q in g.names:
+            if q not in par:
+                continue
+            for s, tr in enumerate(g.dfa[q].trans):
+                for l, t in sorted(tr.items()):
+                    if not g.is_terminal(l):
+                        sites.setdefault(l, []).append((q, s, t))
+        for rule in g.names:
+            if rule not in par or len(sites.get(rule, ())) < 2:
+                continue
+            d = g.dfa[rule]
+            for (q, qs, qt) in sites[rule]:
+                if par[rule][1] == (q, qs, qt):
+                    continue        # the cheapest context: already produced by sentences()
+                w, pos = self.word_through(q, qs, rule, qt)
+                if w is None:
+                    continue
+                for s, tr in enumerate(d.trans):
+                    for l, t in sorted(tr.items()):
+                        inner = self.tree_through(rule, s, l, t)
+                        if inner is None:
+                            continue
+                        kids = [self.expand(x) for x in w]
+                        kids[pos] = inner
+                        yield (rule, s, l, q, qs), self.embed(('N', q, kids), q, par)
+
+
 SPELL = {'NAME': ['a', 'xy', '_z9'], 'NUMBER': ['1', '0x1F', '2.5e3'], 'STRING': ["'s'", '"t"', "b'u'"],
          # literal text of an f-string may be spelled like a keyword or operator of the grammar: it stays literal text
          'FSTRING_START': ["f'", 'f"', "F'"], 'FSTRING_STRING': ['.', 'q', 'if'], 'FSTRING_END': ["'", '"', "'"]}
@@ -445,7 +478,9 @@ def actual_shape(node):
         return ('L', node.value, node.type)
     kids = []
     for c in node.children:
-        if hasattr(c, 'children') and c.type == 'param':
+        # the param grouping convention applies to the children of parameters / lambdef only: a param node anywhere
+        # else stays in the shape and differs from the derivation
+        if hasattr(c, 'children') and c.type == 'param' and node.type in ('parameters', 'lambdef'):
             kids.extend(actual_shape(x) for x in c.children)
         else:
             kids.append(actual_shape(c))
